@@ -25,7 +25,7 @@ Inductive alabel :=
 | APush (g : nat)              (* the push read on generation g of the current client is dispatched: swap *)
 | AGrace (i : nat).            (* GraceClose tick of client i with no invoke in flight: TarsClient.Close *)
 
-Definition caller_label (l : label) : bool := match l with LReconnect | LEnq _ => true | _ => false end.
+Definition caller_label (l : label) : bool := match l with LReconnect | LReconnectFail | LEnq _ => true | _ => false end.
 Definition user_close (l : label) : bool := match l with LUserClose => true | _ => false end.
 
 Definition astep (a : ast) (al : alabel) : option ast :=
